@@ -382,7 +382,7 @@ func Cfg(t *rapid.T, lim Limits) scen.Cfg {
 				c.Level = 1
 			}
 			if !lim.NoCustom && rapid.IntRange(0, 9).Draw(t, "custom") == 0 {
-				c.Custom = pick(t, "custom.kind", "xor", "flate", "nonce", "eager")
+				c.Custom = pick(t, "custom.kind", "xor", "flate", "nonce", "eager", "xorlong")
 				// a caller-supplied compressor takes precedence over whatever built-in
 				// format the options also name
 				if rapid.Bool().Draw(t, "custom.keep_builtin") {
